@@ -383,11 +383,20 @@ func (s *Service) retrieveExistingAndAssignKeys(
 			Exec(ctx, tx); err != nil {
 			return nil, errors.Skip(err, query.ErrNotFound)
 		}
+		// Several existing channels can carry one name. Every request element is replaced,
+		// and taken off the number of keys to allocate, only once: counting it per
+		// existing channel leaves the counter behind the keys handed out below, and the
+		// next create would reuse one of them.
+		replaced := make(map[int]struct{}, len(existing))
 		for _, e := range existing {
 			idx := lo.IndexOf(names, e.Name)
 			if idx < 0 {
 				continue
 			}
+			if _, done := replaced[idx]; done {
+				continue
+			}
+			replaced[idx] = struct{}{}
 			(*channels)[idx] = e
 			if incCounterBy != 0 {
 				incCounterBy--
